@@ -43,21 +43,10 @@ Proof.
   destruct bs as [|b bs]; [congruence|]. destruct is as [|i is]; [congruence|]. reflexivity.
 Qed.
 
-Lemma adv_loop_complete : forall gs, Forall wf_group gs -> forall acc any,
-  let r := adv_loop (map wrap gs) acc any in
-  il (fst r) == il acc + il (adv_sum gs) /\ el (fst r) == el acc + el (adv_sum gs) /\
-  eu (fst r) == eu acc + eu (adv_sum gs) /\ iu (fst r) == iu acc + iu (adv_sum gs) /\
-  snd r = (any || match gs with [] => false | _ => true end)%bool.
+Lemma contribs_complete : forall gs, Forall wf_group gs -> adv_contribs (map wrap gs) = map grp gs.
 Proof.
-  induction 1 as [|g gs Hg Hgs IH]; intros acc any; cbn [map adv_loop].
-  - cbn. repeat split; try lra. now rewrite orb_false_r.
-  - rewrite (adv_group_wrap g Hg).
-    specialize (IH (mkPB (il acc + il (grp g)) (el acc + el (grp g)) (eu acc + eu (grp g)) (iu acc + iu (grp g))) true).
-    cbv zeta in IH. destruct IH as (A & B & C & D & E).
-    cbn [il el eu iu] in A, B, C, D.
-    unfold adv_sum in *. cbn [il el eu iu map] in *. rewrite !qsum_cons.
-    repeat split; try lra.
-    rewrite E. cbn. now rewrite orb_true_r.
+  unfold adv_contribs. induction 1 as [|g gs Hg Hgs IH]; cbn [map somes]; [reflexivity|].
+  rewrite (adv_group_wrap g Hg). cbn [somes]. now rewrite IH.
 Qed.
 
 (* on complete data the calculator returns bounds iff there is at least one group, and they
@@ -68,13 +57,11 @@ Lemma advertised_complete : forall gs, Forall wf_group gs ->
   | None => gs = []
   end.
 Proof.
-  intros gs H. unfold advertised.
-  pose proof (adv_loop_complete gs H (mkPB 0 0 0 0) false) as L. cbv zeta in L.
-  destruct (adv_loop (map wrap gs) (mkPB 0 0 0 0) false) as [acc any]. cbn [fst snd il el eu iu] in L.
-  destruct L as (A & B & C & D & E). cbn [orb] in E. subst any.
-  destruct gs as [|g gs].
-  - reflexivity.
-  - split; [congruence|]. unfold pb_eq. repeat split; lra.
+  intros gs H. unfold advertised. rewrite (contribs_complete gs H).
+  destruct gs as [|g gs]; [reflexivity|].
+  cbn [map]. split; [congruence|].
+  change (grp g :: map grp gs) with (map grp (g :: gs)).
+  unfold pb_eq, adv_sum. cbn [il el eu iu]. rewrite !map_map. repeat split; reflexivity.
 Qed.
 
 (* ------------------------------------------------------------------ manager on the same groups *)
